@@ -413,7 +413,7 @@ pub fn run(out: &mut Out, tier: &str, seed: u64, prop: &str) {
             }
         }
         if prop == "C08" && ans.starts_with("ok ") {
-            round_trip(out, &text, &vars);
+            round_trip(out, &mut rc, &text, &vars);
         }
     }
     // ---- corpus of minimised past failures, first ------------------------------------------------------
@@ -589,11 +589,26 @@ pub fn marker_equiv(a: &MarkerTree, b: &MarkerTree, seed: u64) -> bool {
 }
 
 /// C08: Display / serde round trip of an accepted requirement (in this process: no panics expected)
-fn round_trip(out: &mut Out, text: &str, vars: &[(String, String)]) {
+fn round_trip(out: &mut Out, rc: &mut ReqCases, text: &str, vars: &[(String, String)]) {
     apply_env(vars);
     let r = match std::panic::catch_unwind(|| Requirement::<VerbatimUrl>::from_str(text)) { Ok(Ok(r)) => r, _ => return };
     out.nontrivial(text.to_string());
     let shown = r.to_string();
+    // the Display glue against its Lean model (`showReq`): components as their own printers give them
+    {
+        let extras: Vec<String> = r.extras.iter().map(|e| hex(&e.to_string())).collect();
+        let kind = match &r.version_or_url {
+            None => "none".to_string(),
+            Some(pep508_rs::VersionOrUrl::VersionSpecifier(v)) => format!("s:{}", v.iter().map(|x| hex(&x.to_string())).collect::<Vec<_>>().join(";")),
+            Some(pep508_rs::VersionOrUrl::Url(u)) => format!("u:{}", hex(&u.to_string())),
+        };
+        let marker = r.marker.contents().map(|c| hex(&c.to_string())).unwrap_or("none".into());
+        rc.lines.push(format!("showreq\t{}\t{}\t{}\t{}", hex(&r.name.to_string()), if extras.is_empty() { "-".to_string() } else { extras.join(";") }, kind, marker));
+        rc.envs.push(vars.to_vec());
+        out.impl_out.push(hex(&shown));
+        out.evaluations += 1;
+        out.stat("c08.display_model_cases");
+    }
     let input = serde_json::json!({"text": text, "rendered": shown});
     // the property's carve-out: FALSE renders as `python_version < '0'`, deprecated keys render under the modern name
     let is_false = r.marker.is_false();
